@@ -30,6 +30,28 @@ pub fn render_ty(t: &Value) -> String {
             }
             s
         }
+        "qpath" => {
+            let mut s = String::new();
+            if t["lead"].as_bool().unwrap_or(false) {
+                s.push_str("::");
+            }
+            let segs = t["segs"].as_array().cloned().unwrap_or_default();
+            let segargs = t["segargs"].as_array().cloned().unwrap_or_default();
+            let parts: Vec<String> = segs
+                .iter()
+                .enumerate()
+                .map(|(i, seg)| {
+                    let args: Vec<String> = segargs.get(i).and_then(|a| a.as_array()).map(|a| a.iter().map(render_ty).collect()).unwrap_or_default();
+                    if args.is_empty() {
+                        seg.as_str().unwrap_or("").to_string()
+                    } else {
+                        format!("{}<{}>", seg.as_str().unwrap_or(""), args.join(", "))
+                    }
+                })
+                .collect();
+            s.push_str(&parts.join("::"));
+            s
+        }
         "tup" => {
             let el: Vec<String> = t["elems"]
                 .as_array()
